@@ -2,6 +2,7 @@
 //! Bounded exhaustive exploration of the real sta-rs code (see /verif/DESIGN.md).
 mod ggmx;
 mod mc;
+mod probe;
 mod props;
 mod refmodel;
 mod sut;
@@ -14,6 +15,14 @@ fn main() {
   if args.is_empty() {
     eprintln!("usage: verif <Cxx> [--tier quick|thorough] [--replay file] [--only substr] [--no-evidence]");
     std::process::exit(2);
+  }
+  if args[0] == "probe" {
+    match args.get(1).map(|s| s.as_str()) {
+      Some("produce") => probe::main_produce(),
+      Some("consume") => probe::main_consume(args.get(2).map(|s| s.as_str()).unwrap_or(""), args.get(3).map(|s| s.as_str()).unwrap_or("")),
+      other => probe::main_probe(other.unwrap_or("nothing")),
+    }
+    return;
   }
   let id = args[0].clone();
   let mut tier = match std::env::var("VERIF_TIER").ok().as_deref() {
